@@ -222,9 +222,11 @@ class ProgressBar(object):
         Finish the progress output.
         """
         if not self._max:
+            # The maximum is only known now: the final frame differs from
+            # every frame written so far and must be drawn
             self._max = self._step
-
-        if self._step == self._max and not self._should_overwrite:
+        elif self._step == self._max and not self._should_overwrite:
+            # Avoid writing the 100% frame twice
             return
 
         self.set_progress(self._max)
